@@ -748,6 +748,12 @@ def _c16() -> List[Obl]:
     out = [Obl(id="c16.ids", prop="C16", engine="kani", target="obl_c16::c16_ids", fns=["Codes::from_code_const", "Codes::to_code_const"]),
            Obl(id="c16.code_to_id_and_back", prop="C16", engine="kani", target="obl_c16::c16_back", fns=["Codes::to_code_const", "Codes::from_code_const"]),
            Obl(id="c16.eq_same_class", prop="C16", engine="kani", target="obl_c16::c16_eq", fns=["<Codes as PartialEq>::eq"])]
+    for fn, real in (("codes_eq", "<Codes as PartialEq>::eq"), ("lemma_rice0_unary", ""), ("lemma_golomb1_unary", ""), ("lemma_golomb_pow2_rice", ""),
+                     ("lemma_eg0_gamma", "")):
+        out.append(Obl(id=f"c16.verus.classes.{fn}", prop="C16", engine="verus", target=f"classes:{fn}", fns=[real] if real else [],
+                       note="codes that compare equal have identical codewords for every value and both bit orders (unbounded quotients)"))
+    out.append(Obl(id="c16.verus.zeta1_is_gamma", prop="C16", engine="verus", target="zeta:lemma_zeta1_is_gamma", fns=[],
+                   note="discharges the zeta_1 = gamma axiom of the classes unit"))
     for cl in ("unary", "gamma", "rice1", "rice2", "rice3"):
         for el in ("be", "le"):
             kind = "bounded" if cl in ("unary", "rice1", "rice2", "rice3") else "complete"
